@@ -13,6 +13,10 @@ CHECKS = {
     technique='path-exhaustive symbolic execution of every shipped line definition (real Field.value on symbolic inputs/lines, z3 decides feasibility) + SMT lifting of each crashing path through a whole-return model to concrete inputs, replayed on the real Solver',
     text='Every line of every form of 2021-2023 (copy forms up to K instances) is run symbolically to path exhaustion; a feasible path ending in an unknown input/line/form (not deliberately absent) or Attribute/Name/Key/Assertion error is a candidate. z3 then decides whether any input assignment makes the real solver reach it (whole-return model: unsat = unreachable within the bound); sat witnesses are replayed on the uninstrumented Solver and only reproduced crashes are reported. Bounded: K copies per input form, S in total, amounts <= 1e8, whole cents.',
     design='4 C10', note=TB + '; oracle/absent_forms.json lists the deliberately absent forms; whole-return model validated differentially against the real Solver'),
+ 'C09': dict(
+    technique='SMT queries over a whole-return model composed from path-exhaustive symbolic summaries of the real line definitions (z3: gate affirmative and consulted and solved must be unsat), witnesses replayed on the real Solver',
+    text='For every gate input of oracle/gates.json (62-64 per year) and two arithmetic limit gates, z3 is asked whether some input assignment makes an evaluated line consult the gate with an affirmative answer (or exceed the limit) while the whole return still solves; unsat = impossible for every input inside the bound (K copies per input form, S in total, amounts <= 1e8 in whole cents, symbolic filing status). Each gate has a reachability twin (gate negative must be satisfiable). The model is the composition of the real line functions executed symbolically; it is validated differentially against the real Solver, and every sat witness is replayed on the uninstrumented code.',
+    design='4 C09', note=TB + '; oracle/gates.json (generated from the pinned tree, reviewed) is the specification of the unsupported situations'),
  'C07': dict(
     technique='bounded symbolic execution of the real figure_tax on a symbolic real income (proxy objects through the real bytecode, z3 decides path feasibility) + per-path SMT equivalence with the statutory rate schedule',
     text='Every path of the real figure_tax/figure_tax_table/figure_tax_worksheet (one per table row and worksheet row, for each year and each of the 5 statuses) is enumerated by the symbolic executor; for each, z3 proves value(x) == schedule(x) for every real x on that path (unsat of the negation), that no feasible x falls through, and monotonicity across adjacent pieces. Holds for all real x in [0,1e12]; float rounding of the worksheet kernel is bounded by an NRA lemma under the IEEE standard model. Witnesses are replayed on the uninstrumented code before being reported.',
